@@ -123,10 +123,14 @@ def _gate(fb, cs):
         while cond[0] == 'un' and cond[1] == 'Not':
             cond = cond[2]
             val = 1 if val == 0 else 0 if val in (1, ('not', [0])) else val
-        if cond[0] == 'call' and cond[1].endswith('::eq') and val == 0:
-            return True
-        if cond[0] == 'call' and cond[1].endswith('::ne') and val in (1, ('not', [0])):
-            return True
+        if (cond[0] == 'call' and cond[1].endswith('::eq') and val == 0) or (cond[0] == 'call' and cond[1].endswith('::ne') and val in (1, ('not', [0]))):
+            # the comparison must be about the very part this call handles: encode(tag, <part>, ..) under <part> != default
+            payload = cs.arg(1) if len(cs.t['args']) > 1 else None
+            parts = [nosite(strip_refs(x)) for x in payload[2]] if payload and payload[0] == 'agg' else []
+            compared = [nosite(strip_refs(x)) for x in cond[2]]
+            if any(c in parts for c in compared):
+                return True
+            return 'other-part'
     return None
 
 
@@ -171,6 +175,10 @@ def analyse(prog, cg, mm):
     g = {i: _gate(fb, calls[i][0]) for i in (1, 2, 3, 4)}
     if any(v is None for v in g.values()):
         return None
+    names = {1: 'key_encode', 2: 'key_encoded_len', 3: 'val_encode', 4: 'val_encoded_len'}
+    wrong = [names[i] for i, v in g.items() if v == 'other-part']
+    if wrong:
+        return {'mismatch': 'in encode_with_default the call of %s is conditioned on the default-ness of the OTHER part of the entry' % ', '.join(wrong)}
     out['encode'] = (g[1], g[3])
     out['prefix'] = (g[2], g[4])
     # encoded_len_with_default(key_encoded_len, val_encoded_len, val_default, tag, values): the per-entry closure
@@ -189,6 +197,9 @@ def analyse(prog, cg, mm):
     gl = {i: _gate(fc, ccalls[i][0]) for i in (1, 2)}
     if any(v is None for v in gl.values()):
         return None
+    wrong = [{1: 'key_encoded_len', 2: 'val_encoded_len'}[i] for i, v in gl.items() if v == 'other-part']
+    if wrong:
+        return {'mismatch': 'in encoded_len_with_default the call of %s is conditioned on the default-ness of the OTHER part of the entry' % ', '.join(wrong)}
     out['encoded_len'] = (gl[1], gl[2])
     out['detail'] = {'folded switches': (nfold, nfold2)}
     return out
@@ -203,6 +214,9 @@ def skip_default(rep, rule, ctx):
             r = analyse(prog, cg, mm)
             if r is None:
                 rep.anchor_missing(rule, 'skip-default shape of prost::encoding::%s::{encode,encoded_len}_with_default (%s)' % (mm, label))
+                continue
+            if 'mismatch' in r:
+                rep.bad(rule, key, '', 'prost %s, %s: %s: the entry length prefix / reported length no longer matches the bytes written when exactly one part holds its default' % (mm, label, r['mismatch']))
                 continue
             want_on = variant == 'ws'
             if r['encode'] == r['encoded_len'] == r['prefix'] and r['encode'] == ((False, False) if want_on else (True, True)):
